@@ -37,7 +37,7 @@ func (c *sortSliceChecker) VisitExpr(expr ast.Expr) {
 	if len(call.Args) != 2 {
 		return
 	}
-	switch qualifiedName(call.Fun) {
+	switch resolvedQualifiedName(c.ctx, call.Fun) {
 	case "sort.Slice", "sort.SliceStable":
 		// OK.
 	default:
